@@ -47,10 +47,11 @@ PY = '/venv/bin/python'
 
 
 @st.composite
-def config_strategy(draw, force_sorted_omp=False, reorder=None):
+def config_strategy(draw, force_sorted_omp=False, reorder=None,
+                    exclude=()):
     omp = True if force_sorted_omp else draw(st.booleans())
     return dict(
-        nnps=draw(st.sampled_from(NNPS)),
+        nnps=draw(st.sampled_from([n for n in NNPS if n not in exclude])),
         cache=draw(st.booleans()),
         openmp=omp,
         threads=draw(st.sampled_from([1, 2, 3, 5, 8, 16])) if omp else 1,
@@ -60,10 +61,10 @@ def config_strategy(draw, force_sorted_omp=False, reorder=None):
 
 
 @st.composite
-def case_strategy(draw, problem, nfree):
+def case_strategy(draw, problem, nfree, exclude=()):
     reorder = draw(st.sampled_from([0, 1, 3]))
-    cfgs = [draw(config_strategy(True, reorder)) for _ in range(2)]
-    cfgs += [draw(config_strategy()) for _ in range(nfree)]
+    cfgs = [draw(config_strategy(True, reorder, exclude)) for _ in range(2)]
+    cfgs += [draw(config_strategy(exclude=exclude)) for _ in range(nfree)]
     return dict(problem=problem,
                 phys=dict(n=draw(st.sampled_from([10, 12, 14])),
                           dt=draw(st.sampled_from([1e-4, 2e-4])),
@@ -247,14 +248,23 @@ def check(case, workdir):
 def plan(ctx):
     probs = ['drop', 'column', 'periodic']
     shards = []
+    # input classes with an open finding (a neighbour algorithm that is
+    # known to be wrong for a problem class) are excluded by construction
+    excl = {}
+    for e in ctx.get('known_open', []):
+        m = e['match']
+        if 'problem' in m and 'nnps' in m:
+            excl.setdefault(m['problem'], []).append(m['nnps'])
     if ctx['tier'] == 'quick':
         for i in range(12):
             shards.append(dict(name='cfg-%02d-%s' % (i, probs[i % 3]),
-                               problem=probs[i % 3], ncases=1, nfree=4))
+                               problem=probs[i % 3], ncases=1, nfree=4,
+                               exclude=excl.get(probs[i % 3], [])))
     else:
         for i in range(48):
             shards.append(dict(name='cfg-%02d-%s' % (i, probs[i % 3]),
-                               problem=probs[i % 3], ncases=12, nfree=8))
+                               problem=probs[i % 3], ncases=12, nfree=8,
+                               exclude=excl.get(probs[i % 3], [])))
     return shards
 
 
@@ -280,7 +290,10 @@ def run_shard(spec, ctx):
         if nontriv and len(stats.samples) < 2:
             stats.samples.append(json.loads(canon(case)))
         return Outcome(fails, labels, False, inconclusive=inconclusive)
-    search(case_strategy(spec['problem'], spec['nfree']), execute,
+    if spec.get('exclude'):
+        stats.label('excluded:known:' + ','.join(spec['exclude']))
+    search(case_strategy(spec['problem'], spec['nfree'],
+                         tuple(spec.get('exclude', []))), execute,
            derive_seed(ctx.seed, 'C05', spec['name']), spec['ncases'] + 1,
            stats, shrink=False)
     return stats.result()
